@@ -85,6 +85,17 @@ def check_case(case):
   cshape = {'pos': [], 'dflt': list(PARAMS), 'varargs': False, 'kwonly': [], 'kwdflt': [],
             'varkw': False, 'kind': case['consumer_kind'], 'api': case['consumer_api'],
             'name': 'cons'}
+  if (case.get('consumer_bases') and case['consumer_kind'] == 'class_init' and
+      case['consumer_api'] == 'configurable'):
+    # the consumer class inherits its constructor through one or two configurable base classes
+    cshape['configurable_base'] = case['consumer_bases']
+    labels.add('consumer-constructor-inherited-from-configurable-base')
+  lead = bool(case.get('posonly_lead')) and case['consumer_kind'] == 'function'
+  if lead:
+    # def cons(lead, /, a=..., b=..., ...): every call passes `lead` by position; the positional
+    # arguments after it still fill a, b, ... in order
+    cshape['pos'], cshape['posonly_pos'] = ['lead'], 1
+    labels.add('consumer-with-positional-only-first-parameter')
   cons = G.build(cshape, gin)
   prods = {}
   gen_prod = case.get('generator_producer')
@@ -261,6 +272,8 @@ def check_case(case):
           supplied[param] = 'omit'     # positional gap: treated as omitted
         else:
           supplied[param] = 'omit'
+      if lead:
+        args.insert(0, 'CALLER:lead')
       by_gin = [p for p in PARAMS if supplied[p] in ('omit', 'req_pos', 'req_kw')]
       unbound_required = [p for p in PARAMS if supplied[p].startswith('req') and p not in bound]
       floor = {name: len(p.log) for name, p in prods.items()}
@@ -372,6 +385,8 @@ def strategy(draw):
       'generator_producer': draw(st.sampled_from([None, None, None] + PRODUCERS)),
       'consumer_kind': draw(st.sampled_from(['function', 'function', 'class_init'])),
       'consumer_api': draw(st.sampled_from(['configurable', 'register', 'external'])),
+      'posonly_lead': draw(st.integers(0, 3)) == 0,
+      'consumer_bases': draw(st.sampled_from([0, 0, 1, 2])),
       'producer_apis': [draw(st.sampled_from(['configurable', 'register', 'external']))
                         for _ in PRODUCERS],
       'producer_bindings': draw(st.lists(
